@@ -1926,24 +1926,27 @@ Q(name="e2_drop_oversized_predicate", props=["C16", "C13"], func=r"datagrams\.rs
   replay=("dgram_drop_oversized_native", lambda m: [dict(first_big=0), dict(first_big=1)]))
 
 
-# ------------------------------------------------------------------ C07: the off-path PATH_RESPONSE datagram (slice) - KNOWN FINDING on the pinned tree
+# ------------------------------------------------------------------ C07: the off-path PATH_RESPONSE datagram is expanded only within the anti-amplification limit (slice)
 def opr_post(c, p):
     st = p.p.state
     pad = p.called(r"PacketBuilder::pad_to$")
+    pop = p.called(r"pop_off_path$")
     if not pad:
         return "true"
-    # a response to an address that is not the validated path is expanded to 1200 bytes only if some
-    # anti-amplification decision about that address allows it (RFC 9000 8.2.2)
-    aa = [x for x in st.calls if re.search(r"amplification", x[0])]
-    if not aa:
+    if len(pop) != 1:
         return "false"
-    res = aa[-1][2] if str(aa[-1][2]).startswith("|") else c.ex.read_key(st, aa[-1][2], BOOL).t
-    return not_(res)
+    # RFC 9000 8.2.2: the response to a challenge from an unvalidated address is expanded to 1200 bytes only if three
+    # times what that address is known to have sent (the packet that carried the challenge) covers it
+    received = c.ex.read_key(st, pop[0][2] + "@Some.0.2", BV64).t
+    a = pad[0][1][1]
+    if a[0] != "val":
+        return "false"
+    return ule(zext(a[1].t, 112), "(bvmul %s %s)" % (zext(received, 64), bv(3, 128)))
 
 
 Q(name="e2_off_path_response_slice", props=["C07"], func=r"connection/mod\.rs:245:1[^>]*>::poll_transmit$",
   src="connection/mod.rs", within=r"^    pub fn poll_transmit\(", start_line=r"self\.path_responses\.pop_off_path\(self\.path\.remote\)", end_line=[r"self\.populate_packet\(now, space_id, buf", r"let sent =$"],
-  pure=[r"amplification"], check_stop=True, allowed_panics=r".", ignore_untranslatable=r"^loop at",
-  functions=["Connection::poll_transmit (slice: the off-path PATH_RESPONSE datagram)"], pre=lambda c: "true", post=opr_post,
-  bounds="from an arbitrary state: the datagram answering a PATH_CHALLENGE that came from an address other than the current path is padded to 1200 bytes only after an anti-amplification decision about that address; on the pinned tree there is none (known finding C07/off-path-response, see known_findings.json)",
+  check_stop=True, allowed_panics=r".", ignore_untranslatable=r"^loop at",
+  functions=["Connection::poll_transmit (slice: the off-path PATH_RESPONSE datagram)", "PathResponses::pop_off_path (opaque)"], pre=lambda c: "true", post=opr_post,
+  bounds="from an arbitrary state: the datagram answering a PATH_CHALLENGE that came from an address other than the current path is padded to N bytes only if N <= 3 * the size recorded for the packet that carried the challenge (the third component pop_off_path returns); slice located through the source text",
   replay=("conn_off_path_challenge_native", lambda m: [dict(n=2), dict(n=5)]))
